@@ -30,6 +30,7 @@ pub fn render(s: &Value, marker: &Path) -> String {
             "echo" => "echo hello",
             "crash" => "assert_fail boom",
             "exit3" => "exit 3",
+            "exit256" => "exit 256",
             "exit0" => "exit 0",
             "badquote" => "echo \"unterminated",
             "unknowncmd" => "nosuchcommand x",
@@ -137,7 +138,7 @@ pub fn record(args: &[String]) {
     let mut s = Summary::new();
     for _ in 0..n {
         let len = 1 + r.below(10);
-        let mut st: Vec<&str> = (0..len).map(|_| *r.pick(&["echo", "echo", "echo", "echo", "echo", "crash", "exit3", "exit0", "badquote", "unknowncmd", "ECHO", "none", "out", "out", "OUT", "lbl", "lbl", "LBL"])).collect();
+        let mut st: Vec<&str> = (0..len).map(|_| *r.pick(&["echo", "echo", "echo", "echo", "echo", "crash", "exit3", "exit256", "exit0", "badquote", "unknowncmd", "ECHO", "none", "out", "out", "OUT", "lbl", "lbl", "LBL"])).collect();
         if ["out", "OUT", "lbl", "LBL"].contains(&st[0]) { st[0] = "none"; }
         let missing = r.chance(1, 15);
         let script = json!({"st": st, "label": *r.pick(&["none", "lower", "Upper"]), "out": *r.pick(&["none", "none", "lower", "Upper"]), "missing": missing});
